@@ -70,6 +70,8 @@ def required (ph : String) : List String :=
 
 inductive Scratch where
   | tsAll | tsDev | jobhash | tsCycles | helperF | counterDur
+  /-- a `dur` key on an event that is not a slice (counter, flow arrow, metadata, instant) -/
+  | nonSliceDur
 deriving DecidableEq, Repr
 
 inductive Eff where
@@ -94,6 +96,8 @@ def effect (k : Scratch) (stage : String) : Eff :=
   | .helperF, "flow_data_cleanup" => .cleans
   | .counterDur, "compute_utilization" => .adds
   | .counterDur, "cleanup_copy_of_device_ts" => .cleans
+  | .nonSliceDur, "compute_utilization" => .adds   -- the PT Active counters inherit the kernel's duration
+  | .nonSliceDur, "cleanup_copy_of_device_ts" => .cleans
   | _, _ => .none
 
 /-- a registration site as far as the analysis needs it -/
@@ -101,6 +105,7 @@ structure St where
   name : String
   cond : Bool
   guard : String
+deriving DecidableEq
 
 def selected (v : String → Bool) (s : St) : Bool := !s.cond || v s.guard
 
